@@ -299,6 +299,24 @@ func ruleGuardErrors(c *Ctx, r *Reporter) {
 		} else {
 			r.bad(key, c.posStr(instrPos(badAt)), "an effect executes before/without the `locked` guard: a rejected write to a table the transaction does not hold still changes something")
 		}
+		// every answer other than the two guard errors is given after the locked guard: a write to a
+		// table the transaction does not hold reports ErrTableNotLockedForWriting whatever the
+		// table contains (no "nothing to do" shortcut in front of the guard)
+		var early *ssa.Return
+		for _, ret := range returnsOf(fn) {
+			eg := errGlobalOf(ret.Results[len(ret.Results)-1])
+			if eg == "ErrTransactionClosed" || eg == "ErrTableNotLockedForWriting" {
+				continue
+			}
+			if !im_lockedFact(e, ret.Block()) {
+				early = ret
+			}
+		}
+		if early == nil {
+			r.ok(fnn+"|no answer before the locked guard", c.posStr(instrPos(lockedIf)), "every return other than the guard errors is dominated by the true `locked` edge")
+		} else {
+			r.bad(fnn+"|no answer before the locked guard", c.posStr(instrPos(early)), "the function can return (a result, or another error) before the table is known to be locked by this transaction: a write to a table the transaction does not hold is answered like a successful no-op instead of ErrTableNotLockedForWriting")
+		}
 	}
 	// every write method reaches modify/delete
 	writers := map[string][]string{
